@@ -2,6 +2,7 @@ package main
 
 import (
 	"fmt"
+	"go/constant"
 	"go/token"
 	"go/types"
 	"regexp"
@@ -84,6 +85,9 @@ func classifyErr(op ssa.Value, seen map[ssa.Value]bool) exitKind {
 			case "errorsmod.Wrap", "errorsmod.Wrapf", "errors.New", "fmt.Errorf", "status.Error", "status.Errorf":
 				return exitFailure
 			}
+		}
+		if g := resolveCallee(&x.Call); g != nil && alwaysFails(g, 0) {
+			return exitFailure
 		}
 		return exitMaybe
 	case *ssa.Extract:
@@ -240,9 +244,9 @@ func knownNonNilAt(v ssa.Value, b *ssa.BasicBlock) bool {
 			continue
 		}
 		var other ssa.Value
-		if bo.X == v {
+		if sameNamedValue(bo.X, v, b) {
 			other = bo.Y
-		} else if bo.Y == v {
+		} else if sameNamedValue(bo.Y, v, b) {
 			other = bo.X
 		} else {
 			continue
@@ -399,6 +403,11 @@ type visitKey struct{ b, from *ssa.BasicBlock }
 func infeasibleEdges(fn *ssa.Function) map[edgeKey]bool {
 	m := map[edgeKey]bool{}
 	for _, b := range fn.Blocks {
+		// a nil test of an error that is a failure construct (or is known non-nil here, or is the nil constant):
+		// one successor is never taken, whatever the predecessor
+		if i := staticNilBranch(b); i >= 0 {
+			m[edgeKey{b, i, nil}] = true
+		}
 		ph := boolPhiCond(b)
 		if ph == nil {
 			continue
@@ -414,6 +423,62 @@ func infeasibleEdges(fn *ssa.Function) map[edgeKey]bool {
 		}
 	}
 	return m
+}
+
+// staticNilBranch: block b ends in `if v == nil` / `if v != nil` on an error value whose nilness is known at b;
+// returns the index of the successor that cannot be taken, or -1.
+func staticNilBranch(b *ssa.BasicBlock) int {
+	if len(b.Instrs) == 0 {
+		return -1
+	}
+	iff, ok := b.Instrs[len(b.Instrs)-1].(*ssa.If)
+	if !ok {
+		return -1
+	}
+	cond := iff.Cond
+	neg := false
+	for {
+		if u, ok := cond.(*ssa.UnOp); ok && u.Op == token.NOT {
+			cond, neg = u.X, !neg
+			continue
+		}
+		break
+	}
+	bo, ok := cond.(*ssa.BinOp)
+	if !ok || (bo.Op != token.EQL && bo.Op != token.NEQ) {
+		return -1
+	}
+	var v ssa.Value
+	switch {
+	case isNilConst(bo.Y):
+		v = bo.X
+	case isNilConst(bo.X):
+		v = bo.Y
+	default:
+		return -1
+	}
+	if !types.Identical(v.Type(), errorType) {
+		return -1
+	}
+	isNil, known := false, false
+	switch {
+	case isNilConst(v):
+		isNil, known = true, true
+	case classifyErr(v, map[ssa.Value]bool{}) == exitFailure || knownNonNilAt(v, b):
+		isNil, known = false, true
+	}
+	if !known {
+		return -1
+	}
+	// value of the condition
+	val := (bo.Op == token.EQL) == isNil
+	if neg {
+		val = !val
+	}
+	if val {
+		return 1
+	}
+	return 0
 }
 
 // entryKey is a transition pred → block.
@@ -668,7 +733,7 @@ func (s *PathSearch) search(firstOnly bool) []Reached {
 			cv, cknown = condVal(iff.Cond, cur.st)
 		}
 		for i, succ := range cur.b.Succs {
-			if s.AvoidEdges[edgeKey{cur.b, i, nil}] {
+			if s.AvoidEdges[edgeKey{cur.b, i, nil}] || infeas[edgeKey{cur.b, i, nil}] {
 				continue
 			}
 			if cur.from != nil && (s.AvoidEdges[edgeKey{cur.b, i, cur.from}] || infeas[edgeKey{cur.b, i, cur.from}]) {
@@ -771,6 +836,8 @@ func (p *Prog) matchEdgesDepth(fn *ssa.Function, re *regexp.Regexp, depth int) [
 		if depth > 0 && ef.Pred == nil {
 			if v := p.successCallOfEdge(ef); v != nil && p.callImplies(fn, v, re, depth) {
 				out = append(out, ef)
+			} else if c2, k2 := sentinelOfEdge(ef); c2 != nil && p.callImpliesRK(fn, p.R(fn), c2, re, depth, k2) {
+				out = append(out, ef)
 			} else if v := p.falseCallOfEdge(ef); v != nil && p.callImpliesPol(fn, v, re, depth, false) {
 				out = append(out, ef)
 			}
@@ -857,6 +924,88 @@ func (p *Prog) callImpliesPol(fn *ssa.Function, v ssa.Value, re *regexp.Regexp, 
 // callImpliesR: like callImplies, with the arguments of the call rendered by r (fn itself, or fn seen as a helper
 // in its caller's terms — so that facts of helpers nested in helpers arrive in the outermost caller's terms).
 func (p *Prog) callImpliesR(fn *ssa.Function, r *Renderer, v ssa.Value, re *regexp.Regexp, depth int) bool {
+	return p.callImpliesRK(fn, r, v, re, depth, nil)
+}
+
+// sentinelOfCond: the condition compares the integer result of a call with a constant (`find(x) != -1`,
+// `find(x) >= 0`, …); with the condition's outcome `taken` the call returned through an exit that `keep` accepts
+// (the exits returning a constant the comparison rules out are the others). Nil when the condition has another form.
+func sentinelOfCond(cond ssa.Value, taken bool) (*ssa.Call, func(*ssa.Return) bool) {
+	for {
+		if u, ok := cond.(*ssa.UnOp); ok && u.Op == token.NOT {
+			cond, taken = u.X, !taken
+			continue
+		}
+		break
+	}
+	b, ok := cond.(*ssa.BinOp)
+	if !ok {
+		return nil, nil
+	}
+	op, x, y := b.Op, b.X, b.Y
+	if _, isC := x.(*ssa.Const); isC {
+		x, y = y, x
+		switch op {
+		case token.LSS:
+			op = token.GTR
+		case token.GTR:
+			op = token.LSS
+		case token.LEQ:
+			op = token.GEQ
+		case token.GEQ:
+			op = token.LEQ
+		}
+	}
+	call, _ := x.(*ssa.Call)
+	c, _ := y.(*ssa.Const)
+	if call == nil || c == nil || c.Value == nil || c.Value.Kind() != constant.Int {
+		return nil, nil
+	}
+	if bt, isB := call.Type().Underlying().(*types.Basic); !isB || bt.Info()&types.IsInteger == 0 {
+		return nil, nil
+	}
+	if !taken {
+		switch op {
+		case token.EQL:
+			op = token.NEQ
+		case token.NEQ:
+			op = token.EQL
+		case token.LSS:
+			op = token.GEQ
+		case token.GEQ:
+			op = token.LSS
+		case token.GTR:
+			op = token.LEQ
+		case token.LEQ:
+			op = token.GTR
+		}
+	}
+	return call, func(ret *ssa.Return) bool {
+		if len(ret.Results) != 1 {
+			return true
+		}
+		rc, isC := ret.Results[0].(*ssa.Const)
+		if !isC || rc.Value == nil || rc.Value.Kind() != constant.Int {
+			return true
+		}
+		return constant.Compare(rc.Value, op, c.Value)
+	}
+}
+
+// sentinelOfEdge: the edge is taken exactly when sentinelOfCond's comparison has the outcome of the edge.
+func sentinelOfEdge(ef EdgeFact) (*ssa.Call, func(*ssa.Return) bool) {
+	if ef.Pred != nil {
+		return nil, nil
+	}
+	iff, ok := ef.Block.Instrs[len(ef.Block.Instrs)-1].(*ssa.If)
+	if !ok {
+		return nil, nil
+	}
+	return sentinelOfCond(iff.Cond, ef.Idx == 0)
+}
+
+// callImpliesRK: callImpliesR over the exits of the callee that keep accepts (nil: all of them).
+func (p *Prog) callImpliesRK(fn *ssa.Function, r *Renderer, v ssa.Value, re *regexp.Regexp, depth int, keep func(*ssa.Return) bool) bool {
 	if depth <= 0 {
 		return false
 	}
@@ -904,19 +1053,27 @@ func (p *Prog) callImpliesR(fn *ssa.Function, r *Renderer, v ssa.Value, re *rege
 			if v2 := p.successCallOfEdge(ef); v2 != nil && p.callImpliesR(g, gr, v2, re, depth-1) {
 				avoid[ef.Key()] = true
 				n++
+			} else if c2, k2 := sentinelOfEdge(ef); c2 != nil && p.callImpliesRK(g, gr, c2, re, depth-1, k2) {
+				avoid[ef.Key()] = true
+				n++
 			}
 		}
 	}
 	// exits of g that return a call directly
 	var targets []ssa.Instruction
 	for _, e := range Exits(g) {
-		if e.Kind == exitFailure {
+		if e.Kind == exitFailure || (keep != nil && !keep(e.Ret)) {
 			continue
 		}
 		if e.Kind == exitMaybe && len(e.Ret.Results) > 0 {
 			op := e.Ret.Results[len(e.Ret.Results)-1]
 			if sv := spilledValue(op, e.Ret); sv != nil {
 				op = sv
+			}
+			// the returned comparison of a search result with its not-found sentinel
+			if c2, k2 := sentinelOfCond(op, true); c2 != nil && depth > 1 && p.callImpliesRK(g, gr, c2, re, depth-1, k2) {
+				n++
+				continue
 			}
 			f := ""
 			if types.Identical(op.Type(), errorType) {
@@ -1103,4 +1260,31 @@ func spilledValue(op ssa.Value, ret *ssa.Return) ssa.Value {
 		}
 	}
 	return last
+}
+
+
+// sameNamedValue: x and v are the same SSA value, or two loads of the same local variable (a named result, a
+// variable captured by a deferred closure) with no store to it in the block where v is used before that use.
+func sameNamedValue(x, v ssa.Value, useBlock *ssa.BasicBlock) bool {
+	if x == v {
+		return true
+	}
+	lx, ok1 := x.(*ssa.UnOp)
+	lv, ok2 := v.(*ssa.UnOp)
+	if !ok1 || !ok2 || lx.Op != token.MUL || lv.Op != token.MUL || lx.X != lv.X {
+		return false
+	}
+	if _, isAlloc := lx.X.(*ssa.Alloc); !isAlloc {
+		return false
+	}
+	for _, in := range useBlock.Instrs {
+		if in == ssa.Instruction(lv) {
+			break
+		}
+		if st, ok := in.(*ssa.Store); ok && st.Addr == lx.X {
+			return false
+		}
+	}
+	// the use block must be entered straight from the test (no other definition can intervene on the way)
+	return lv.Block() == useBlock
 }
